@@ -57,6 +57,16 @@ def cases(tier, seed):
     for i in range(n):
         rng = gen.rng_for(seed, ID, i)
         sp = gen.config(rng, seasons=(1, 2), hostile=(i % 2 == 0), p_gw=0.2, flags=(i % 3 == 0))
+        if i % 4 == 1:
+            # a dry start that sends the canopy into early senescence, water back late in the season
+            import datetime as dt
+
+            sp = gen.config(rng, seasons=(1, 2), dry=True, regimes=["arid", "hot", "warm"], methods=(3,), p_gw=0.0, p_file=0.0,
+                            crops=["Cotton", "Maize", "Sorghum", "Sunflower", "Wheat", "CottonGDD", "MaizeGDD", "Soybean"], pre=(0,))
+            p0 = gen.first_planting(sp)
+            L = gen.crop_len_days(sp["crop"]["name"])
+            d0 = int(L * float(gen.pick(rng, [0.6, 0.7, 0.8])))
+            sp["irr"] = {"method": 3, "kw": {"MaxIrr": 60.0}, "schedule": [[gen.fmt(p0 + dt.timedelta(days=d0 + 7 * k)), 50.0] for k in range(6)]}
         out.append({"kind": "ride", "spec": sp})
     return out
 
